@@ -80,7 +80,7 @@ def main():
     if not model_viol and stale:
         print("MODEL-DIVERGENCE: the real code reads back stale rows, the model (Truncate=%s) does not" % TRUNCATE_AS_CODED)
     if model_viol and stale:
-        print("MODEL: spec/CsvFile.tla with Truncate=FALSE (as coded) violates %s; confirmed on the real code" % model_viol)
+        print("MODEL: spec/CsvFile.tla with Truncate=%s (as coded) violates %s; confirmed on the real code" % (TRUNCATE_AS_CODED, model_viol))
     rc = V.finish()
     for m in machinery:
         print("MACHINERY: " + m)
